@@ -11,6 +11,12 @@ CHECKS = {
         text="Bounded model checking: for every ordered-base hierarchy of <=4 (quick) / <=5 (thorough) classes CrossHair exhausts the path tree of mro.mro/_merge run on symbolic class ids and of the model path (source -> System -> Class.mro/find/docsources/get_docstring, mro warnings) and every leaf agrees with a reference C3 / with CPython executing the same class statements. Nothing is claimed beyond 5 classes.",
         note="Trusted: CrossHair 0.0.110 + z3 exhaustion verdict; reference C3 validated against type() at import; CPython 3.12 as oracle. The model-path harness (class E) concretises the solver-chosen shape and runs pydoctor untraced: bounded-exhaustive, not symbolic.",
     ),
+    "C13": dict(
+        level="model_checking", design="DESIGN.md §3 C13", engine="rx+xh",
+        technique="z3 regex-theory equivalence of the regex emitted by qnmatch.translate with the documented glob meaning, for names of every length; CrossHair-exhausted rule-list space for privacyClass precedence",
+        text="K13a: for every pattern of length <=4 (quick) / <=6 (thorough) over a metacharacter-complete 10-character alphabet the regular expression the real translate() returns is compiled (via CPython's own regex parser) to a z3 regex and proved language-equal to the documented meaning - unsat means no name of any length distinguishes them; sat models are replayed on qnmatch.qnmatch. K13b: CrossHair exhausts every rule list of <=3 (4) rules x privacy x pattern kind x name shape against the precedence sentence of the manual. Bounded in pattern length and rule count only.",
+        note="Trusted: z3 sequence theory, CPython re._parser as the meaning of regex text, lib/rx2z3.py (validated each run against re on sample names and on every witness), CrossHair exhaustion verdict. '-' ranges in brackets are outside the claim.",
+    ),
 }
 
 NOT_APPLICABLE = {
